@@ -64,6 +64,14 @@ REQUIRED_CLASSES = (['B1:ChemkinReaction', 'B1:SurfaceReaction', 'B1:ts', 'B1:no
                      'bulk_reactant:ChemkinReaction', 'bulk_reactant:SurfaceReaction',
                      'names:substring_of_bulk:ChemkinReaction', 'names:substring_of_bulk:SurfaceReaction',
                      'names:superstring_of_bulk'] + OPT_CLASSES +
+                    ['dir:omkm.BEP=%s:rxn=%s' % (a, b) for a in (None, 'cleavage', 'synthesis')
+                     for b in (None, 'cleavage', 'synthesis')] +
+                    ['dir:BEP=None:rxn=%s' % b for b in (None, 'cleavage', 'synthesis')] +
+                    ['attr:n_sites>1:ChemkinReaction', 'attr:n_sites>1:SurfaceReaction',
+                     'attr:gas_cat_site:ChemkinReaction', 'attr:gas_cat_site:SurfaceReaction',
+                     'attr:gas_cat_site:non_adsorption:ChemkinReaction', 'attr:notes_smiles'] +
+                    ['ea_file', 'ea_file:same_TP_differing_blocks', 'ea_file:columns_differ'] +
+                    ['ea_file:method=' + m for m in ('get_GoRT_act', 'get_HoRT_act', 'get_EoRT_act')] +
                     ['B1:adsorption:no_ts:endo_dir:ChemkinReaction', 'B1:adsorption:no_ts:endo_dir:SurfaceReaction',
                      'B1:adsorption:ts', 'B1:E_act:no_ts'] +
                     ['A:%s:beta=%s:%s' % (c, b, t) for c in ('ChemkinReaction', 'SurfaceReaction')
@@ -109,6 +117,19 @@ ASSUMPTIONS = [
     'ChemkinReaction without a transition state: get_EoRT_act(del_m) = clamped reaction enthalpy + (1 - del_m) and '
     'get_E_act(del_m=1) its dimensional form (documented in its docstring); not driven on SurfaceReaction, which has no '
     'such no-TS branch',
+    'species attributes that are not in the formulas (n_sites >= 2 of adsorbates, a gas reactant carrying a cat_site, '
+    'notes, smiles) are swept on the site cases of both classes and must not move A.  Exception recorded as telemetry '
+    '(B3_gas_cat_site_density_enters_sigma): ChemkinReaction.get_A collects the site density of every reactant with a '
+    'cat_site, also a gas one, while the exponent counts surface species only; with n_surf >= 2 only the scaling law '
+    '(ratio test) and positivity are asserted there, with n_surf = 1 the value kB/h is',
+    'phase spellings other than G / S (documented g, gas; s) are not generated for ChemkinReaction: _is_gas_phase and '
+    '_get_n_surf compare case-sensitively, so an all-gas reaction spelled g gives A = 0 / ValueError (reported, not asserted)',
+    'direction labels (None / cleavage / synthesis) of the SurfaceReaction and of the BEP are drawn independently (all 9 '
+    'pairs with the OpenMKM BEP, 3 with the parent BEP are constructible): every B2 relation holds for every pair',
+    'write_EA (EAs.inp / EAg.inp, the hand-over to Chemkin) is driven as one call with several run conditions sharing T '
+    'and P and differing in <name>_kwargs blocks: the trailing numeric columns of every reaction line equal the clamp '
+    'reference at that run\'s conditions (get_GoRT_act / get_HoRT_act; get_EoRT_act only without a TS).  The file layout '
+    'is C06\'s subject and is not checked here',
     'q-route of get_A (use_q=True) is only checked for sign; with empirical species get_q is the _ModelBase default 1',
     'exp arguments beyond +-650 are skipped (telemetry)',
 ]
@@ -255,7 +276,9 @@ def _gen_bep(rng, descriptor=None, rcls=None, bep_cls=None, slope=None, shared=N
         flavor = 'empirical' if rcls == 'ChemkinReaction' else rng.choice(['statmech', 'mixed', 'empirical'])
     spec = RG.gen_reaction(rng, flavor=flavor, cls=rcls, ts=False)
     spec['kind'] = 'bep'
-    spec['extra'] = _gen_options(rng, rcls, direction='default')      # direction follows the BEP (see _build)
+    # direction labels ('cleavage' / 'synthesis' / None) are drawn independently for the reaction and the BEP
+    spec['extra'] = _gen_options(rng, rcls)
+    spec['rxn_direction_explicit'] = True
     spec['cond'] = RG.gen_conditions(rng, spec)
     if flavor != 'statmech' and rng.random() < 0.6:
         # realistic reaction enthalpy so that slope*dH and the intercept are comparable
@@ -299,13 +322,45 @@ def _gen_A_reaction(rng):
     return spec
 
 
+EA_METHODS = ['get_GoRT_act', 'get_HoRT_act', 'get_EoRT_act']
+
+
+def _gen_ea_file(rng, method=None):
+    """One write_EA call (EAs.inp / EAg.inp: the hand-over of the activation quantities to Chemkin): 2-4
+    ChemkinReactions, several run conditions of which at least two share T and P and differ only in
+    species-specific '<name>_kwargs' blocks (a partial-pressure scan)."""
+    rxns = []
+    for _ in range(rng.randint(2, 4)):
+        r = RG.gen_reaction(rng, flavor='empirical', cls='ChemkinReaction', ts=rng.random() < 0.6)
+        r['extra'] = _gen_options(rng, 'ChemkinReaction')
+        rxns.append({k: r[k] for k in ('cls', 'flavor', 'species', 'reactants', 'products', 'ts', 'extra')})
+    T, P = round(rng.uniform(300, 1500), 1), S.logu(rng, 1e-2, 10, 3)
+    gas = sorted(set(n for r in rxns for n, sp in r['species'].items() if sp.get('phase') == 'G'
+                     and not n.endswith('_TS')))
+    pool = gas or sorted(set(n for r in rxns for n in r['species']))
+    conds = [{'T': T, 'P': P}]
+    for _ in range(rng.randint(1, 3)):
+        c = {'T': T, 'P': P}
+        for g in rng.sample(pool, min(len(pool), rng.choice([1, 1, 2]))):
+            c['%s_kwargs' % g] = {'P': S.logu(rng, 1e-4, 10, 3)}
+        conds.append(c)
+    if rng.random() < 0.5:
+        conds.append({'T': round(T * rng.uniform(1.05, 1.5), 1), 'P': P})
+    if rng.random() < 0.3:
+        conds.append(copy.deepcopy(conds[rng.randrange(len(conds))]))
+    rng.shuffle(conds)
+    return {'kind': 'ea_file', 'cls': 'ChemkinReaction', 'reactions': rxns, 'conditions': conds,
+            'method': method or rng.choice(EA_METHODS + ['get_GoRT_act']),
+            'ads_method': rng.choice(['get_HoRT_act', 'get_GoRT_act']), 'to_file': rng.random() < 0.4}
+
+
 SURF_POOL = ['H(S)', 'O(S)', 'CO(S)', 'OH(S)', 'PT(S)', 'H2O(S)', 'CH3(S)', 'NH2(S)', 'COOH(S)']
 GAS_POOL = ['H2', 'O2', 'CO', 'H2O', 'N2', 'CH4', 'CO2', 'NH3']
 PARTS = {0: [[]], 1: [[1]], 2: [[2], [1, 1]], 3: [[3], [2, 1], [1, 2], [1, 1, 1]]}
 
 
 def _gen_A_surface(rng, cls=None, n_surf=None, op=None, nsites=None, has_ts=None, route=None, bulk=None,
-                   related=None, options=None):
+                   related=None, options=None, attrs=None):
     cls = cls or rng.choice(['ChemkinReaction', 'SurfaceReaction'])
     if n_surf is None:
         n_surf = rng.choice([0, 1, 2, 2, 3, 3] if cls == 'ChemkinReaction' else [0, 1, 1, 2, 2, 2, 3, 3, 3])
@@ -345,8 +400,15 @@ def _gen_A_surface(rng, cls=None, n_surf=None, op=None, nsites=None, has_ts=None
         add(nm, 'S', site=site)
         reactants.append([nm, rng.choice([k, float(k)])])
     ngas = rng.choice([1, 1, 2]) if n_surf == 0 else rng.choice([0, 0, 1, 1, 2])
+    # species attributes the formulas do not mention: a gas reactant carrying a catalyst site (records built from
+    # one template), site occupancy n_sites of adsorbates, notes / smiles
+    if attrs is None:
+        attrs = {'gas_cat_site': rng.random() < 0.3, 'n_sites': rng.random() < 0.35, 'meta': rng.random() < 0.3}
+    gas_site_of = {}
     for i in range(ngas):
-        add(gas_names[i], 'G')
+        add(gas_names[i], 'G', nasa=bool(attrs.get('gas_cat_site')))
+        if attrs.get('gas_cat_site') and (i == 0 or rng.random() < 0.5):
+            gas_site_of[gas_names[i]] = rng.choice(skeys)
         reactants.append([gas_names[i], rng.choice(RG.STOICH)])
     if bulk is None:
         bulk = n_surf > 0 and rng.random() < 0.25
@@ -373,8 +435,19 @@ def _gen_A_surface(rng, cls=None, n_surf=None, op=None, nsites=None, has_ts=None
         ts = [[nm, 1]]
     if route is None:
         route = rng.choice(['no_entropy', 'entropy', 'entropy', 'default'])
+    if attrs.get('n_sites'):
+        first = True
+        for nm in sorted(species):
+            if nm in site_of and nm not in [st['bulk'] for st in sites.values()] and (first or rng.random() < 0.5):
+                species[nm]['n_sites'] = rng.choice([2, 2, 3, 1])
+                first = False
+    if attrs.get('meta'):
+        for nm in sorted(species):
+            if rng.random() < 0.5:
+                species[nm]['notes'] = rng.choice(['from table 3', 'DFT PBE-D3', 'n_sites=2'])
+                species[nm]['smiles'] = rng.choice(['C(=O)O', '[H][H]', 'O'])
     q, ln = rng.choice(QUANTITIES), rng.choice(LENGTHS)
-    spec = {'kind': 'A_surface', 'cls': cls, 'flavor': 'empirical', 'species': species, 'reactants': reactants,
+    spec = {'kind': 'A_surface', 'gas_site_of': gas_site_of, 'cls': cls, 'flavor': 'empirical', 'species': species, 'reactants': reactants,
             'products': products, 'ts': ts, 'extra': _gen_options(rng, cls, **(options or {})), 'sites': sites,
             'site_of': site_of,
             'sden_operation': op or rng.choice(OPS), 'route': route, 'm': rng.choice([0, 0, 1]),
@@ -427,6 +500,17 @@ def directed(tier):
                       'bep': {'name': 'BEP_' + d, 'cls': bep_cls, 'slope': slope, 'intercept': [0.0, 22.5, 60.0][k % 3],
                               'descriptor': d, 'direction': 'synthesis' if bep_cls == 'omkm.BEP' else None},
                       'units': ['kcal/mol', 'eV'], 'bep_units': list(BEP_UNITS)})
+    # --- B2: direction labels of the reaction x the BEP (every constructible pair)
+    tmpl = [c for c in D if c['kind'] == 'bep' and c['bep']['descriptor'] == 'delta_H'][0]
+    for bep_cls, bdirs in (('omkm.BEP', (None, 'cleavage', 'synthesis')), ('BEP', (None,))):
+        for bd in bdirs:
+            for rd in (None, 'cleavage', 'synthesis'):
+                c2 = copy.deepcopy(tmpl)
+                c2['cls'] = 'SurfaceReaction'
+                c2['bep'].update(cls=bep_cls, direction=bd, slope=0.35, intercept=22.5)
+                c2['extra'] = {'direction': rd} if rd else {}
+                c2['rxn_direction_explicit'] = True
+                D.append(c2)
     # --- B2: one BEP object shared by a family of reactions, both evaluation orders
     sib = {'species': {'CH3(S)': _nasa('CH3(S)', 'S', 4.0, -9000.0, 6.0), 'H(S)': _nasa('H(S)', 'S', 1.5, -4000.0, 1.0),
                        'CH4': _nasa('CH4', 'G', 4.5, -2000.0, 22.0)},
@@ -472,6 +556,16 @@ def directed(tier):
                 D.append(_gen_A_surface(r, cls=cls, n_surf=1 + i % 3, op=OPS[i % 4], nsites=1 + i % 2,
                                         has_ts=bool(i % 2) != ads, route='entropy',
                                         options={'beta': beta, 'is_adsorption': ads}))
+    # --- B1 through write_EA: one call per activation method (partial-pressure scan at fixed T, P)
+    for i, meth in enumerate(EA_METHODS):
+        D.append(_gen_ea_file(random.Random('C09-directed-EA-%d' % i), method=meth))
+    # --- B3: species attributes (n_sites >= 2, gas reactant with a cat_site, notes/smiles)
+    for i, cls in enumerate(('ChemkinReaction', 'SurfaceReaction') * 3):
+        r = random.Random('C09-directed-attrs-%d' % i)
+        D.append(_gen_A_surface(r, cls=cls, n_surf=1 + i // 2, op=OPS[i % 4], nsites=1 + (i // 2) % 2,
+                                has_ts=bool(i % 2), route='entropy',
+                                attrs={'gas_cat_site': True, 'n_sites': True, 'meta': True},
+                                options={'is_adsorption': False}))
     # --- B3: n_surf x operation x class grid (deterministic generator seeds; pinned by construction)
     i = 0
     for cls in ('ChemkinReaction', 'SurfaceReaction'):
@@ -489,6 +583,8 @@ def directed(tier):
 
 def generate(rng, tier):
     u = rng.random()
+    if u < 0.03:
+        return _gen_ea_file(rng)
     if u < 0.38:
         return _gen_clamp(rng)
     if u < 0.70:
@@ -573,6 +669,7 @@ def install_probes(pr, ctx):
     pr.watch(lambda: bep().get_EoRT_act, 'BEP.get_EoRT_act')
     pr.watch(lambda: bep().get_UoRT, 'BEP.get_UoRT')
     pr.watch(lambda: bep().get_HoRT, 'BEP.get_HoRT')
+    pr.watch(lambda: __import__('pmutt.io.chemkin', fromlist=['write_EA']).write_EA, 'io.chemkin.write_EA')
 
 
 # =========================================================================== factory
@@ -586,15 +683,18 @@ def _build(spec, scale=None, bep_obj=None):
     dens = {k: s['site_density'] * scale.get(k, 1.0) for k, s in sites.items()}
     bulk_names = set(s['bulk'] for s in sites.values())
     cat = {}
-    if cls == 'ChemkinReaction' and sites:
+    gas_site_of = spec.get('gas_site_of') or {}
+    if sites and (cls == 'ChemkinReaction' or gas_site_of):
         from pmutt.chemkin import CatSite
         for k, s in sites.items():
             cat[k] = CatSite(name=k, site_density=dens[k], density=s['density'], bulk_specie=s['bulk'])
     objs = {}
     for n, s in spec['species'].items():
         extra = {}
-        if n in site_of and cat:
+        if n in site_of and cat and cls == 'ChemkinReaction':
             extra['cat_site'] = cat[site_of[n]]
+        if n in gas_site_of and s['type'] == 'Nasa':
+            extra['cat_site'] = cat[gas_site_of[n]]          # a gas species carrying a catalyst site
         objs[n] = S.build(s, **extra)
     if cls == 'SurfaceReaction' and sites:
         from pmutt.omkm.phase import InteractingInterface, StoichSolid, IdealGas
@@ -620,7 +720,8 @@ def _build(spec, scale=None, bep_obj=None):
             from pmutt.reaction.bep import BEP
             objs[b['name']] = BEP(**kw)
     rspec = spec
-    if spec.get('bep') and cls == 'SurfaceReaction' and spec['bep'].get('direction'):
+    if spec.get('bep') and cls == 'SurfaceReaction' and spec['bep'].get('direction') \
+            and not spec.get('rxn_direction_explicit'):
         rspec = dict(spec, extra=dict(spec.get('extra') or {}, direction=spec['bep']['direction']))
     rxn, _ = RG.build_reaction(rspec, species_objs=objs)
     return rxn, objs
@@ -748,6 +849,9 @@ def _run_bep(spec, ctx, rxn, objs):
     d = b['descriptor']
     X = d[-1]                                   # 'H' or 'E'
     is_delta = 'delta' in d
+    if cls == 'SurfaceReaction':
+        rd = (spec.get('extra') or {}).get('direction') if spec.get('rxn_direction_explicit') else b.get('direction')
+        ctx.cls('dir:%s=%s:rxn=%s' % (b['cls'], b.get('direction'), rd))
     ctx.cls('desc:' + d, 'bep:' + b['cls'], 'B2:' + cls,
             'slope:%s' % ('0' if b['slope'] == 0 else '1' if b['slope'] == 1 else 'inner'))
     RT = c.R('kcal/mol/K') * T
@@ -1028,6 +1132,23 @@ def _run_A_surface(spec, ctx, rxn, objs):
     mech = {'clause': 'B3', 'cls': cls, 'sden_operation': op, 'n_surf': n_surf, 'has_ts': has_ts,
             'route': route if has_ts else 'no_ts'}
     formula = not (has_ts and route == 'default')       # q route with a TS: sign only
+    # species attributes that are not in the formulas
+    gas_cs = [n for n, _ in spec['reactants'] if n in (spec.get('gas_site_of') or {})
+              and spec['species'][n]['type'] == 'Nasa']
+    # ChemkinReaction.get_A collects the density of every reactant carrying a cat_site (also a gas one) while the
+    # exponent counts surface species only: with n_surf >= 2 the *value* of sigma is then not the one of the
+    # surface reactants (telemetry); the scaling law and the n_surf = 1 value are still decided
+    sigma_ok = not (gas_cs and cls == 'ChemkinReaction' and n_surf >= 2)
+    if formula and (n_surf > 0 or cls == 'ChemkinReaction'):
+        if any((spec['species'][n].get('n_sites') or 1) > 1 for n, _ in spec['reactants']
+               if n in spec['site_of'] and n not in bulk):
+            ctx.cls('attr:n_sites>1:' + cls)
+        if gas_cs:
+            ctx.cls('attr:gas_cat_site:' + cls)
+            if n_surf > 0 and not (spec.get('extra') or {}).get('is_adsorption'):
+                ctx.cls('attr:gas_cat_site:non_adsorption:' + cls)
+        if any('notes' in spec['species'][n] for n, _ in spec['reactants']):
+            ctx.cls('attr:notes_smiles')
 
     def expect(sigma_mol_cm2, q, ln, si=False):
         """log A for sigma expressed in q/ln2."""
@@ -1100,6 +1221,12 @@ def _run_A_surface(spec, ctx, rxn, objs):
         if not formula:
             ctx.check('B3', g > 0 and math.isfinite(g), dict(mm, what='positive'), value=g)
             continue
+        if not sigma_ok:
+            ctx.check('B3', g > 0 and math.isfinite(g), dict(mm, what='positive'), value=g)
+            if g > 0 and abs(math.log(g) - expect(sig, q, ln)) > 1e-9:
+                ctx.extra['B3_gas_cat_site_density_enters_sigma'] = \
+                    ctx.extra.get('B3_gas_cat_site_density_enters_sigma', 0) + 1
+            continue
         _log_close(ctx, g, expect(sig, q, ln), dict(mm, what='formula'), sc, sigma=sig, densities=lst,
                    unit='%s/%s2' % (q, ln))
         _log_close(ctx, g, expect(sig, q, ln, si=True), dict(mm, what='formula_SI'), sc, tol=TOL_REF, oracle='B3u')
@@ -1122,7 +1249,7 @@ def _run_A_surface(spec, ctx, rxn, objs):
     f = spec['factor']
     tests = [('all_sites', {k: f for k in spec['sites']})]
     used = sorted(set(spec['site_of'][n] for n, _ in spec['reactants'] if n in spec['site_of'] and n not in bulk))
-    if len(used) > 1:
+    if len(used) > 1 and sigma_ok:
         tests.append(('one_site', {used[0]: f}))
     for label, scl in tests:
         r2, _ = _build(spec, scale=scl)
@@ -1138,9 +1265,83 @@ def _run_A_surface(spec, ctx, rxn, objs):
         ctx.close('B3', math.log(g / A0), want, TOL, dict(mech, what='ratio_' + label), factor=f, A0=A0, A1=g)
 
 
+# =========================================================================== B1 through write_EA
+def _run_ea_file(spec, ctx):
+    """The numbers of EAs.inp / EAg.inp, per reaction and per run condition, equal the clamp reference evaluated
+    at *that run's* conditions (the file format itself is C06's subject: only the trailing numeric columns of the
+    reaction lines are read)."""
+    import os
+    from pmutt.io import chemkin as ck
+    built = [_build(r) for r in spec['reactions']]
+    rxns = [b[0] for b in built]
+    conds = spec['conditions']
+    nc = len(conds)
+    ctx.cls('ea_file', 'ea_file:method=' + spec['method'])
+    keyTP = {}
+    for c in conds:
+        keyTP.setdefault((c['T'], c.get('P')), []).append(c)
+    if any(len(v) > 1 and len(set(core.canon(c) for c in v)) > 1 for v in keyTP.values()):
+        ctx.cls('ea_file:same_TP_differing_blocks')
+    columns_differ = False
+    for gas_flag in (False, True):
+        sel = [i for i, r in enumerate(spec['reactions'])
+               if all(r['species'][n].get('phase') == 'G' for n, _ in r['reactants']) == gas_flag]
+        m0 = {'clause': 'B1', 'cls': 'ChemkinReaction', 'form': 'EA_file', 'what': 'write_EA', 'method': spec['method']}
+        kw = dict(reactions=rxns, conditions=copy.deepcopy(conds), write_gas_phase=gas_flag,
+                  act_method_name=spec['method'], ads_act_method=spec['ads_method'], float_format=' .12E')
+        if spec.get('to_file'):
+            path = os.path.join(ctx.tmpdir, 'EA%s.inp' % ('g' if gas_flag else 's'))
+            r = ctx.call('B1', m0, ck.write_EA, filename=path, **kw)
+            if r is core.NOVALUE:
+                continue
+            text = open(path).read()
+        else:
+            text = ctx.call('B1', m0, ck.write_EA, **kw)
+            if text is core.NOVALUE:
+                continue
+        lines = [l for l in text.splitlines() if l.strip() and not l.lstrip().startswith('!')]
+        try:
+            i0 = next(i for i, l in enumerate(lines) if 'Number of reactions' in l)
+            body = lines[i0 + 1:lines.index('EOF')]
+            rows = [[float(t) for t in l.split()[-nc:]] for l in body]
+        except Exception as e:
+            ctx.inconc('B1', 'EA file not understood', exc=repr(e)[:100], head=text[:300])
+            continue
+        if not ctx.check('B1', len(rows) == len(sel), dict(m0, what='write_EA_rows'), rows=len(rows), want=len(sel)):
+            continue
+        for row, i in zip(rows, sel):
+            r, (rxn, objs) = spec['reactions'][i], built[i]
+            has_ts = bool(r['ts'])
+            meth = spec['ads_method'] if (r.get('extra') or {}).get('is_adsorption') else spec['method']
+            q = meth[4]
+            if q == 'E' and has_ts:
+                ctx.extra['EA_file_Arrhenius_with_TS_unasserted'] = \
+                    ctx.extra.get('EA_file_Arrhenius_with_TS_unasserted', 0) + 1
+                continue
+            wants = []
+            for c, got in zip(conds, row):
+                st, mag = _states(ctx, 'B1', objs, r, 'get_%soRT' % ('H' if q == 'E' else q), c)
+                if st is None:
+                    break
+                delta = st['products'] - st['reactants']
+                cand = {'zero': 0.0, 'barrier': (st['ts'] - st['reactants']) if has_ts else delta, 'delta': delta}
+                want = max(cand.values())
+                wants.append(want)
+                m = dict(m0, q=q, has_ts=has_ts, winner=_winner(cand), rev=False)
+                ctx.close('B1', got, want, TOL, m, scale=max(1.0, max(mag.values())), condition=c, candidates=cand,
+                          row=row)
+            if len(set(wants)) > 1:
+                columns_differ = True
+    if columns_differ:
+        ctx.cls('ea_file:columns_differ')
+        ctx.nontrivial()
+
+
 # =========================================================================== driver
 def run_case(spec, ctx):
     kind = spec['kind']
+    if kind == 'ea_file':
+        return _run_ea_file(spec, ctx)
     if kind in ('clamp', 'bep', 'A_surface'):
         _opt_classes(ctx, spec)
     if kind == 'clamp' and spec.get('ts_history') == 'attach_later' and spec.get('ts') and not spec.get('bep'):
